@@ -129,6 +129,13 @@ class RuleCtx:
     def note(self, msg):
         self.notes.append(msg)
 
+    def sub(self, fn):
+        """Run another rule function under this rule's id; a 'cannot decide' there does not stop the remaining obligations."""
+        try:
+            fn(self)
+        except (AnalysisError, Opaque) as e:
+            self.error(self.rd.rid, f"cannot decide ({getattr(fn, '__module__', '').split('.')[-1]}.{getattr(fn, '__name__', '?')}): {e}")
+
 
 def _jsonable(d):
     out = {}
